@@ -25,6 +25,14 @@ PLAN = {
         "quick": [R("v0", 2), R("miri", 2, timeout=1500)],
         "thorough": [R("v0", 8), R("v2", 2), R("asan", 2), R("miri", 8, timeout=7200)],
     },
+    "C04": {
+        "quick": [R("v0", 4), R("embed", 1), R("miri", 1, timeout=1500)],
+        "thorough": [R("v0", 16), R("v2", 2), R("embed", 1), R("asan", 4, scale=0.3), R("tsan", 4, scale=0.2), R("miri", 2, timeout=3600)],
+    },
+    "C11": {
+        "quick": [R("v0", 4), R("embed", 1), R("miri", 1, timeout=1500)],
+        "thorough": [R("v0", 16), R("embed", 1), R("asan", 2, scale=0.3), R("miri", 2, timeout=3600)],
+    },
     "C05": {
         "quick": [R("v0", 4), R("v1", 2), R("miri", 2, timeout=1500)],
         "thorough": [R("v0", 16), R("v1", 8), R("v2", 4), R("asan", 4), R("tsan", 4), R("miri", 8, timeout=7200)],
@@ -48,6 +56,10 @@ PLAN = {
     "C10": {
         "quick": [R("v0", 4), R("miri", 1, timeout=1500)],
         "thorough": [R("v0", 16), R("v1", 4), R("miri", 4, timeout=7200)],
+    },
+    "C12": {
+        "quick": [R("v0", 4)],
+        "thorough": [R("v0", 16), R("v1", 2), R("asan", 2, scale=0.3)],
     },
     "C13": {
         "quick": [R("v0", 4), R("asan", 2), R("miri", 2, tree_borrows_odd=True, timeout=1500)],
